@@ -16,6 +16,9 @@ CHECKS = {
  "C07": ("Instruction streams from lowered structured programs and from random/shaped jump graphs (shared targets, jumps into bodies, explicit times, interrupt labels, difficulty tags) x 8 valuations: AstVm of decompile(blocks=false) vs decompile(blocks=true) (flattened by desugar_blocks when the recovered form contains a jump into a block), plus structural invariants: referenced labels defined exactly once, explicit-time jumps kept, time-label statements unchanged.",
          "Differential with AstVm on both sides. Explicit jump times are the previous instruction's time (as in game files); times non-decreasing.",
          "property-based differential testing + structural invariants"),
+ "C08": ("(P) ASTs parsed from generated text over the full grammar and (D) ASTs produced by the decompiler from generated instruction streams (all int formats, every f32 class, strings, unknown signatures, difficulty labels, time labels), each printed at 12 sampled widths (thorough: all of 1..200): the text parses, equals the AST after folding literal signs (plus a literal bit-pattern trace), and printing the re-parsed AST gives the same text; for D the script is the same at every width.",
+         "ASTs are compared with truth's own PartialEq (spans ignored, ids equal because both sides are parsed in fresh contexts). Known finding: re-print of literals >= 2^31 is not idempotent (excluded from the search, replayed every run).",
+         "property-based round-trip testing (print/parse) over a grammar-based generator"),
  "C09": ("Generated well-typed programs and single-point mutants (literal type, variable of the other type, sigil add/flip/remove, cast wrap/unwrap, operator change, branch types, call arity, declaration type, float conditions/counts/clobbers, assignment target) at uniformly chosen nodes incl. nested free blocks, loop bodies, conditions, declarations, call arguments, const items: Ok/Err of passes::type_check::run == verdict of the reference typer (both directions); for accepted programs the checker's expression types == the types of AstVm-evaluated values.",
          "The reference typer implements the rules listed in the property statement; function items are not generated.",
          "property-based mutation testing against a reference typer"),
